@@ -20,7 +20,7 @@ def _eval_pd(expr, nj):
 
 
 def gen_scenario(rng, focus=None, big=False) -> Scenario:
-    nj = rng.choice([2, 2, 3, 4])
+    nj = rng.choice([2, 2, 3, 4]) if rng.random() > 0.08 else 1  # 1 = the sequential path
     bs_auto = rng.random() < 0.65
     if bs_auto:
         bs = tuple(rng.choice([1, 1, 2, 2, 3, 4]) for _ in range(rng.randint(1, 6)))
@@ -233,7 +233,7 @@ def oracle(sc: Scenario, run: ctl.Run, props):
             # partial results delivered before the failure must still be right (generator modes)
         if sc.ra == 1 and yields != ids[: len(yields)]:
             bad.append(("C16", "ordered-generator-out-of-order", dict(call=cno, yields=yields)))
-        if sc.ra == 2:
+        if sc.ra == 2 and sc.nj > 1:
             # completion order, each exactly once
             comp = []
             for e in evs:
@@ -259,7 +259,26 @@ def oracle(sc: Scenario, run: ctl.Run, props):
                                 dict(call=cno, at=f"{where}+{off}", tasks_still_to_run=len(later))))
                     break
         # ---- C09 look-ahead
-        if sc.pd_mode == 1:
+        if sc.nj == 1:
+            # sequential path: lazy — items taken exceed tasks executed by at most one (re-)batch
+            pulled = executed = 0
+            over = False
+            for e in evs:
+                if e.startswith("pull "):
+                    pulled += 1
+                    if over:
+                        bad.append(("C09", "pull-after-failure", dict(call=cno, ev=e)))
+                        over = False
+                elif e.startswith("exec "):
+                    executed += 1
+                    if int(e.split()[1]) in failing:
+                        over = True
+                elif e in ("closed", "dropped"):
+                    over = True
+                if pulled - executed > bmax:
+                    bad.append(("C09", "sequential-lookahead-exceeds-batch", dict(call=cno, pulled=pulled, executed=executed)))
+                    break
+        elif sc.pd_mode == 1:
             first_out = next((i for i, e in enumerate(evs) if e.startswith(("yield", "ret", "stop"))), len(evs))
             for i, e in enumerate(evs):
                 if e.startswith("pull") and (" @cb" in e or i > first_out):
